@@ -6,7 +6,9 @@ import (
 	"go/token"
 	"go/types"
 	"math/big"
+	"os"
 	"sort"
+	"strconv"
 	"strings"
 
 	"golang.org/x/tools/go/ssa"
@@ -259,7 +261,7 @@ func (c *Ctx) xs(in []string) []string {
 }
 
 func short(s string) string {
-	if len(s) > 300 {
+	if len(s) > 300 && os.Getenv("VERIF_LONG") == "" {
 		return s[:300] + "…"
 	}
 	return s
@@ -1285,7 +1287,7 @@ func (c *Ctx) ForEach(fnSpec, callee, collPat, desc string, conditional bool) {
 			continue
 		}
 		ct := f.Term(iff.Cond)
-		if !ir.MatchAny("lt(add(phi(-1,add(#self,1)),1),len("+collPat+")) | next(range("+collPat+"))#0", ct) {
+		if !ir.MatchAny("lt(add(phi(-1,add(#self,1)),1),len("+collPat+")) | lt(phi(0,add(#self,1)),len("+collPat+")) | next(range("+collPat+"))#0", ct) {
 			why = "the loop ranges over " + short(ct.String()) + ", want " + collPat
 			continue
 		}
@@ -1952,4 +1954,301 @@ func forwardedHelper(f *ir.Func, ret *ssa.Return) *ir.HelperCtx {
 		return nil
 	}
 	return h
+}
+
+// MapAccumulate (rule A): for every comma-ok lookup `cur, ok := m[k]` in fn on a map with scalar values whose
+// presence flag is branched on, every path from the "present" edge to the end of the iteration (or a successful
+// return) writes m[k] again, and the value written on that path — control-flow joins resolved along the path — is
+// cur + inc (either operand order) with inc matching incPat: a second contribution for the same key is added to the
+// first, never dropped and never overwriting it.
+func (c *Ctx) MapAccumulate(fnSpec, incPat string, min int, desc string) {
+	role := "mapaccumulate"
+	incPat = c.X(incPat)
+	f := c.Fn(fnSpec)
+	if f == nil {
+		return
+	}
+	n := 0
+	for _, b := range f.Fn.Blocks {
+		for _, ins := range b.Instrs {
+			lk, ok := ins.(*ssa.Lookup)
+			if !ok || !lk.CommaOk {
+				continue
+			}
+			mt, ok := lk.X.Type().Underlying().(*types.Map)
+			if !ok {
+				continue
+			}
+			if _, isMap := mt.Elem().Underlying().(*types.Map); isMap {
+				continue
+			}
+			var cur, present ssa.Value
+			for _, r := range *lk.Referrers() {
+				if ex, ok := r.(*ssa.Extract); ok {
+					if ex.Index == 0 {
+						cur = ex
+					} else {
+						present = ex
+					}
+				}
+			}
+			if present == nil {
+				continue
+			}
+			var iff *ssa.If
+			for _, r := range *present.Referrers() {
+				if x, ok := r.(*ssa.If); ok {
+					iff = x
+				}
+			}
+			if iff == nil {
+				c.add("A", fnSpec, role, desc, report.Undecided, "presence flag of a map lookup is not branched on directly", c.posOf(lk))
+				return
+			}
+			n++
+			M, K := f.Term(lk.X).String(), f.Term(lk.Index).String()
+			if cur == nil {
+				c.add("A", fnSpec, role, desc, report.Violated, "the value already stored under the key is never read", c.posOf(lk))
+				return
+			}
+			var path []*ssa.BasicBlock
+			org := ir.NewOrigins(f.Fn)
+			org.PhiChoice = func(phi *ssa.Phi) ssa.Value {
+				at := -1
+				for i, pb := range path {
+					if pb == phi.Block() {
+						at = i
+					}
+				}
+				if at <= 0 {
+					return nil
+				}
+				for i, p := range phi.Block().Preds {
+					if p == path[at-1] {
+						return phi.Edges[i]
+					}
+				}
+				return nil
+			}
+			head := iff.Block()
+			steps := 0
+			bad, badPos := "", ""
+			var dfs func(b *ssa.BasicBlock)
+			dfs = func(b *ssa.BasicBlock) {
+				steps++
+				if bad != "" || steps > 5000 {
+					return
+				}
+				path = append(path, b)
+				defer func() { path = path[:len(path)-1] }()
+				for _, in := range b.Instrs {
+					u, ok := in.(*ssa.MapUpdate)
+					if !ok || f.Term(u.Map).String() != M || f.Term(u.Key).String() != K {
+						continue
+					}
+					org.ResetMemo()
+					vt, ct := org.Of(u.Value), org.Of(cur).String()
+					okv := false
+					if ((vt.Op == "call" && strings.HasSuffix(vt.Name, ".Add")) || (vt.Op == "op" && vt.Name == "add")) && len(vt.Args) == 2 {
+						for i := 0; i < 2; i++ {
+							if vt.Args[i].String() == ct && ir.MatchAny(incPat, vt.Args[1-i]) {
+								okv = true
+							}
+						}
+					}
+					if !okv {
+						bad, badPos = "with the key present, the entry is overwritten with "+short(vt.String())+" (want the stored value plus "+incPat+")", c.posOf(u)
+					}
+					return
+				}
+				if k := f.ExitKindOf(b); k == ir.SuccessExit || k == ir.MaybeExit {
+					bad, badPos = "with the key present, a path returns without updating the entry", c.posOf(lk)
+					return
+				}
+				for _, s := range ir.FeasibleSuccs(b) {
+					if s == head || s.Dominates(head) {
+						bad, badPos = "with the key present, a path ends the iteration without updating the entry", c.posOf(lk)
+						return
+					}
+					dfs(s)
+				}
+			}
+			path = append(path, head)
+			dfs(head.Succs[0])
+			path = path[:0]
+			if steps > 5000 {
+				c.add("A", fnSpec, role, desc, report.Undecided, "too many paths", c.posOf(lk))
+				return
+			}
+			if bad != "" {
+				c.add("A", fnSpec, role, desc, report.Violated, bad, badPos)
+				return
+			}
+		}
+	}
+	// converse: an entry of a map that may already hold the key is written only after the presence of that very key
+	// in that very map was tested (a map created in the same block is empty: its first entry needs no test)
+	for _, b := range f.Fn.Blocks {
+		for _, ins := range b.Instrs {
+			u, ok := ins.(*ssa.MapUpdate)
+			if !ok {
+				continue
+			}
+			mt, ok := u.Map.Type().Underlying().(*types.Map)
+			if !ok {
+				continue
+			}
+			if _, isMap := mt.Elem().Underlying().(*types.Map); isMap {
+				continue
+			}
+			if mk, ok := u.Map.(*ssa.MakeMap); ok && mk.Block() == b {
+				continue
+			}
+			M, K := f.Term(u.Map).String(), f.Term(u.Key).String()
+			tested := false
+			for _, lb := range f.Fn.Blocks {
+				for _, li := range lb.Instrs {
+					lk, ok := li.(*ssa.Lookup)
+					if !ok || !lk.CommaOk || !(lb == b || lb.Dominates(b)) {
+						continue
+					}
+					if f.Term(lk.X).String() == M && f.Term(lk.Index).String() == K {
+						tested = true
+					}
+				}
+			}
+			if !tested {
+				c.add("A", fnSpec, role, desc, report.Violated, "entry "+short(K)+" is written without a preceding presence test of the same key in the same map", c.posOf(u))
+				return
+			}
+		}
+	}
+	if n < min {
+		c.add("A", fnSpec, role, desc, report.Violated, fmt.Sprintf("%d presence-tested lookups on scalar-valued maps, expected at least %d", n, min), c.fnPos(f))
+		return
+	}
+	c.add("A", fnSpec, role, desc, report.OK, fmt.Sprintf("%d lookup(s): present ⇒ stored value + increment is written back", n), c.fnPos(f))
+}
+
+// KeyLayout (rule Y): the byte string fn returns, rendered symbolically — constant text verbatim, every other
+// component as <origin term>, formatting calls (fmt.Sprintf / fmt.Fprintf into a local buffer / string
+// concatenation) expanded verb by verb — equals want. The layout (which separators follow which variable-length
+// component) is what makes a prefix scan select exactly one pool's or pair's records.
+func (c *Ctx) KeyLayout(fnSpec, want, desc string) {
+	role := "keylayout"
+	f := c.Fn(fnSpec)
+	if f == nil {
+		return
+	}
+	var render func(t *ir.Term, depth int) (string, bool)
+	expand := func(format *ir.Term, args []*ir.Term, depth int) (string, bool) {
+		if format.Op != "const" || !strings.HasPrefix(format.Name, "\"") {
+			return "", false
+		}
+		fs, err := strconv.Unquote(format.Name)
+		if err != nil {
+			return "", false
+		}
+		var sb strings.Builder
+		ai := 0
+		for i := 0; i < len(fs); i++ {
+			if fs[i] != '%' {
+				sb.WriteByte(fs[i])
+				continue
+			}
+			i++
+			if i >= len(fs) {
+				return "", false
+			}
+			if fs[i] == '%' {
+				sb.WriteByte('%')
+				continue
+			}
+			if !strings.ContainsRune("sdvq", rune(fs[i])) || ai >= len(args) {
+				return "", false // width/flags or missing operand: not modelled
+			}
+			s, ok := render(args[ai], depth+1)
+			if !ok {
+				return "", false
+			}
+			sb.WriteString(s)
+			ai++
+		}
+		if ai != len(args) {
+			return "", false
+		}
+		return sb.String(), true
+	}
+	render = func(t *ir.Term, depth int) (string, bool) {
+		if depth > 6 {
+			return "", false
+		}
+		switch {
+		case t.Op == "const" && strings.HasPrefix(t.Name, "\""):
+			s, err := strconv.Unquote(t.Name)
+			return s, err == nil
+		case t.Op == "call" && t.Name == "fmt.Sprintf" && len(t.Args) >= 1:
+			return expand(t.Args[0], t.Args[1:], depth)
+		case t.Op == "op" && t.Name == "add" && len(t.Args) == 2:
+			a, ok1 := render(t.Args[0], depth+1)
+			b, ok2 := render(t.Args[1], depth+1)
+			return a + b, ok1 && ok2
+		case t.Op == "call" && t.Name == "bytes.Buffer.Bytes" && len(t.Args) == 1:
+			if len(f.Fn.Blocks) != 1 {
+				return "", false
+			}
+			var sb strings.Builder
+			for _, call := range f.Calls() {
+				args := f.CallArgs(call)
+				if len(args) == 0 || args[0].String() != t.Args[0].String() {
+					continue
+				}
+				switch f.CalleeName(call) {
+				case "fmt.Fprintf":
+					if len(args) < 2 {
+						return "", false
+					}
+					s, ok := expand(args[1], args[2:], depth)
+					if !ok {
+						return "", false
+					}
+					sb.WriteString(s)
+				case "bytes.Buffer.WriteString", "bytes.Buffer.Write":
+					s, ok := render(args[1], depth+1)
+					if !ok {
+						return "", false
+					}
+					sb.WriteString(s)
+				case "bytes.Buffer.Bytes":
+				default:
+					return "", false
+				}
+			}
+			return sb.String(), true
+		}
+		return "<" + t.String() + ">", true
+	}
+	n := 0
+	for _, b := range f.Fn.Blocks {
+		ret, ok := b.Instrs[len(b.Instrs)-1].(*ssa.Return)
+		if !ok || len(ret.Results) == 0 {
+			continue
+		}
+		n++
+		t := f.Term(ret.Results[0])
+		got, ok := render(t, 0)
+		if !ok {
+			c.add("Y", fnSpec, role, desc, report.Undecided, "key construction not modelled: "+short(t.String()), c.posOf(ret))
+			return
+		}
+		if got != want {
+			c.add("Y", fnSpec, role, desc, report.Violated, fmt.Sprintf("key layout is %q, want %q", got, want), c.posOf(ret))
+			return
+		}
+	}
+	if n == 0 {
+		c.add("Y", fnSpec, role, desc, report.Undecided, "no return", c.fnPos(f))
+		return
+	}
+	c.add("Y", fnSpec, role, desc, report.OK, want, c.fnPos(f))
 }
